@@ -269,6 +269,14 @@ func worldRoutes(w *World) {
 		hostChoices := []string{"www.site.example.test", "WWW.SITE.example.test", "www.site.example.test:8080", "www.site.example.test.", "api.site.example.test", "x.site.example.test",
 			"deep.x.site.example.test", "foo.example.test", "unknown.test", "www.other.example.test", "site.example.test"}
 		host := hostChoices[r.Intn(len(hostChoices))]
+		// host spellings that a lenient normaliser may turn into a registered name in more than one step. Where they are
+		// routed is left open here; what is demanded is C07 only: no protected backend without its credentials
+		exotic := r.Intn(8) == 0
+		if exotic {
+			hn := []string{"www.site.example.test", "api.site.example.test", "x.site.example.test", "site.example.test", "www.other.example.test"}[r.Intn(5)]
+			host = []string{hn + "..", hn + "..:8080", "[" + hn + ":80]:8080", "[" + hn + ".:80]:8080", hn + ".:80.", hn + ":80:8080"}[r.Intn(6)]
+			w.Probe("routes.exotic_host_spelling")
+		}
 		// (dot segments are not resolved by the vhost: a location matches the request target as sent, and the
 		// credential check must use the very route the request is forwarded to)
 		path := []string{"/", "/a", "/ab", "/a/b", "/a/b/c/d", "/abc", "/zzz", "/a/bb", "/a/../zzz", "/a/b/../../x", "/a/./b", "/a/b/..", "/a/b/../c"}[r.Intn(13)]
@@ -343,6 +351,16 @@ func worldRoutes(w *World) {
 		// request form: HTTP/1.1 on a keep-alive connection (mostly), HTTP/1.0 on a connection of its own, or HTTP/2
 		// over clear text with prior knowledge (the vhost wraps its handler with h2c)
 		form := []string{"1.1", "1.1", "1.1", "1.1", "1.0", "h2c", "h2c-upgrade", "h2c-upgrade"}[r.Intn(8)]
+		ver := "1.0"
+		if exotic {
+			// on a connection of its own (a refusal may close it), as HTTP/1.0 or as HTTP/1.1 with Connection: close
+			form = "1.0"
+			want = nil
+			if r.Intn(2) == 0 {
+				ver = "1.1"
+				hs = append(hs, "Connection: close")
+			}
+		}
 		if strings.HasPrefix(form, "h2c") && absolute {
 			form = "1.1" // HTTP/2 has no absolute-form targets
 		}
@@ -415,7 +433,7 @@ func worldRoutes(w *World) {
 				viol("C06", "connect", "vhost-port-refused", "%v", err)
 				return
 			}
-			fmt.Fprintf(c, "%s %s HTTP/1.0\r\nHost: %s\r\nX-Marker: %s\r\n%s\r\n", method, target, host, marker, strings.Join(append(hs, ""), "\r\n"))
+			fmt.Fprintf(c, "%s %s HTTP/%s\r\nHost: %s\r\nX-Marker: %s\r\n%s\r\n", method, target, ver, host, marker, strings.Join(append(hs, ""), "\r\n"))
 			c.SetReadDeadline(time.Now().Add(20 * time.Second))
 			var err2 error
 			got, err2 = readRawMsg(bufio.NewReader(c), false, false)
@@ -495,6 +513,9 @@ func worldRoutes(w *World) {
 				viol("C07", "auth", "protected-route-reached-without-credentials", "request %s Host %s (absolute-form=%v, Authorization %q:%q, Proxy-Authorization %q:%q) reached protected route %s (needs %q:%q); history: %v",
 					target, host, absolute, authUser, authPwd, proxyUser, proxyPwd, sawRoute.id(), sawRoute.authUser, sawRoute.authPwd, history)
 			}
+		}
+		if exotic {
+			return
 		}
 		if len(sawBy) > 0 && sawRoute == nil {
 			// seen by a proxy that is not live: a former owner
